@@ -65,8 +65,18 @@ def handle (args : List String) (obs : String) : Option Reply := do
       (if b.maxAlloc.isSome then ["max alloc:"] else []) ++ b.tallies.filterMap fun (n, t) => if t.isSome then some n else none
     let kinds := ["max alloc:", "alloc:", "dealloc:", "grow:", "shrink:"]
     let badKind := kinds.find? fun k => contLabels.count k ≠ wantLabels.count k
+    -- every cell computed for a benchmark (with the configured byte format) is printed as such
+    let allCells : List String := blocks.flatMap fun b =>
+      b.main ++ b.counters.flatten ++
+      (match b.maxAlloc with | some (a, z) => a ++ z | none => []) ++
+      b.tallies.flatMap fun (_, t) => match t with | some (a, z) => a ++ z | none => []
+    let missing := (allCells.map fun c => c.trimAscii.toString).find? fun c =>
+      c ≠ "" ∧ c ≠ "-" ∧ (implOut.splitOn c).length < 2
     let v := if implOut.isEmpty ∧ !ops.isEmpty then bad "nothing was printed"
-      else match badKind with
+      else match missing with
+      | some c => bad s!"[C18][C20] a cell computed for a benchmark with the configured format is not what is printed under it (`{c}` does not occur in the output)"
+      | none =>
+      match badKind with
         | some k => bad s!"[C20] the allocation rows printed under the benchmarks are not the ones computed for them (`{k}` sections: printed {contLabels.count k}, computed {wantLabels.count k})"
         | none => "ok"
     some { model := model, verdict := v,
